@@ -670,172 +670,17 @@ func (e *Exec) run(entry *State, args Val) (Val, *State) {
 	e.entry = st0.clone()
 	incoming := map[*ssa.BasicBlock][]edge{}
 	incoming[fn.Blocks[0]] = []edge{{cond: "true", st: st0}}
-	loops := map[*ssa.BasicBlock]*loopInfo{}
+	e.loops = map[*ssa.BasicBlock]*loopInfo{}
+	e.doneBlk = map[*ssa.BasicBlock]bool{}
 	var flow func(from, to *ssa.BasicBlock, cond string, s *State)
 	flow = func(from, to *ssa.BasicBlock, cond string, s *State) {
-		if to.Dominates(from) && isLoopHeader(to) { // back-edge
-			pc := c.and(s.pc, cond)
-			ls := e.loopSpec(to)
-			ord := e.loopOrd[to]
-			if ls != nil {
-				st := s.clone()
-				st.pc = pc
-				env := e.envAt(st, true)
-				for _, inv := range ls.Invs {
-					e.obligeClause("inv-step", fmt.Sprintf("loop%d:%s", ord, inv.Label), inv, pc, env)
-				}
-				if ls.Decreases != nil {
-					m := env.evalInt(ls.Decreases)
-					li := loops[to]
-					c.oblige(e.obl("decreases", fmt.Sprintf("loop%d", ord), nil), pc, c.B("(and (<= 0 %s) (< %s %s))", li.measure, m, li.measure))
-				}
-			}
-			e.autoInvs(s, to, pc, "inv-step", ord)
+		if to.Dominates(from) && isLoopHeader(to) { // back-edge of a loop cut by its invariant
+			e.backEdge(from, to, cond, s)
 			return
 		}
 		incoming[to] = append(incoming[to], edge{from: from, cond: cond, st: s.clone()})
 	}
-	for _, b := range rpo(fn) {
-		ins := incoming[b]
-		if len(ins) == 0 {
-			continue
-		}
-		// a block that only returns is executed once per incoming edge: the
-		// postconditions are then checked per path instead of on a merged state
-		if _, isRet := b.Instrs[len(b.Instrs)-1].(*ssa.Return); isRet && len(ins) > 1 && !isLoopHeader(b) && !hasPhi(b) && simpleBlock(b) {
-			for _, ed := range ins {
-				s := e.merge([]edge{ed})
-				if s.pc == "false" {
-					continue
-				}
-				e.enter(s)
-				for _, in := range b.Instrs {
-					if x, ok := in.(*ssa.Return); ok {
-						var vals Val
-						for _, r := range x.Results {
-							vals = append(vals, e.val(s, r)...)
-						}
-						e.rets = append(e.rets, retPoint{st: s.clone(), vals: vals, pos: x.Pos(), blk: b.Index})
-					} else {
-						e.step(s, in)
-					}
-				}
-			}
-			continue
-		}
-		s := e.merge(ins)
-		if s.pc == "false" {
-			continue
-		}
-		e.enter(s)
-		if isLoopHeader(b) {
-			ord := e.loopOrd[b]
-			ls := e.loopSpec(b)
-			body := naturalLoop(b)
-			mods := e.modifiedIn(body)
-			if ls != nil {
-				env := e.envAt(s, true)
-				for _, inv := range ls.Invs {
-					e.obligeClause("inv-init", fmt.Sprintf("loop%d:%s", ord, inv.Label), inv, s.pc, env)
-				}
-			}
-			e.autoInvs(s, b, s.pc, "inv-init", ord)
-			// havoc what the loop may change
-			var hv []*ssa.Alloc
-			for a := range mods.vars {
-				if _, live := s.vars[a]; live {
-					hv = append(hv, a)
-				}
-			}
-			sort.Slice(hv, func(i, j int) bool { return hv[i].Pos() < hv[j].Pos() })
-			for _, a := range hv {
-				t := a.Type().(*types.Pointer).Elem()
-				nv := make(Val, cells(t))
-				for i := range nv {
-					nv[i] = c.fresh("Int", "hv_"+a.Comment)
-				}
-				s.vars[a] = nv
-			}
-			li := &loopInfo{preA: s.A}
-			loops[b] = li
-			keep := e.unwrittenPrivate(s, body)
-			preHeaps := map[string]string{}
-			for k, v := range s.heaps {
-				preHeaps[k] = v
-			}
-			e.havocHeaps(s, mods.kinds, mods.allocs)
-			// locals whose address never escapes and that the loop does not write keep their contents
-			for _, a := range keep {
-				obj := s.regs[a][0]
-				for k := range mods.kinds {
-					c.assume(s.pc, c.B("(= (select %s %s) (select %s %s))", s.heaps[k], obj, preHeaps[k], obj))
-				}
-			}
-			for _, a := range hv {
-				e.assumeTyped(s, s.vars[a], a.Type().(*types.Pointer).Elem())
-			}
-			e.assumeAutoInvs(s, b)
-			if ls != nil {
-				env := e.envAt(s, true)
-				env.hyp = true
-				for _, inv := range ls.Invs {
-					c.assume(s.pc, env.evalBool(inv.Expr))
-				}
-				if ls.Decreases != nil {
-					li.measure = env.evalInt(ls.Decreases)
-				}
-			}
-		}
-		// phis
-		for _, in := range b.Instrs {
-			phi, ok := in.(*ssa.Phi)
-			if !ok {
-				break
-			}
-			n := cells(phi.Type())
-			r := make(Val, n)
-			for j := 0; j < n; j++ {
-				cur, first := "0", true
-				for i, p := range b.Preds {
-					for k := range ins {
-						if ins[k].from != p {
-							continue
-						}
-						v := e.val(ins[k].st, phi.Edges[i])[j]
-						if first {
-							cur, first = v, false
-						} else {
-							cur = c.ite("Int", c.and(ins[k].st.pc, ins[k].cond), v, cur)
-						}
-					}
-				}
-				r[j] = cur
-			}
-			s.regs[phi] = r
-		}
-		for _, in := range b.Instrs {
-			switch x := in.(type) {
-			case *ssa.Phi:
-				continue
-			case *ssa.If:
-				cond := e.intToBool(e.val(s, x.Cond)[0])
-				flow(b, b.Succs[0], cond, s)
-				flow(b, b.Succs[1], c.not(cond), s)
-			case *ssa.Jump:
-				flow(b, b.Succs[0], "true", s)
-			case *ssa.Return:
-				var vals Val
-				for _, r := range x.Results {
-					vals = append(vals, e.val(s, r)...)
-				}
-				e.rets = append(e.rets, retPoint{st: s.clone(), vals: vals, pos: x.Pos(), blk: b.Index})
-			case *ssa.Panic:
-				e.step(s, in)
-			default:
-				e.step(s, in)
-			}
-		}
-	}
+	e.execRegion(rpo(fn), incoming, flow, nil)
 	if len(e.rets) == 0 {
 		return nil, nil
 	}
@@ -984,4 +829,262 @@ func (e *Exec) enter(s *State) {
 	s.hist = h
 	c.cur = v
 	c.curHist = h
+}
+
+// backEdge: obligations at the back-edge of a loop that is cut by its invariant.
+func (e *Exec) backEdge(from, to *ssa.BasicBlock, cond string, s *State) {
+	c := e.c
+	pc := c.and(s.pc, cond)
+	ls := e.loopSpec(to)
+	ord := e.loopOrd[to]
+	if ls != nil {
+		st := s.clone()
+		st.pc = pc
+		env := e.envAt(st, true)
+		for _, inv := range ls.Invs {
+			e.obligeClause("inv-step", fmt.Sprintf("loop%d:%s", ord, inv.Label), inv, pc, env)
+		}
+		if ls.Decreases != nil {
+			m := env.evalInt(ls.Decreases)
+			li := e.loops[to]
+			c.oblige(e.obl("decreases", fmt.Sprintf("loop%d", ord), nil), pc, c.B("(and (<= 0 %s) (< %s %s))", li.measure, m, li.measure))
+		}
+	}
+	e.autoInvs(s, to, pc, "inv-step", ord)
+}
+
+// unrollFor: how often the loop headed by b is unrolled (0: cut by invariant).
+func (e *Exec) unrollFor(b *ssa.BasicBlock) (int, bool) {
+	if ls := e.loopSpec(b); ls != nil {
+		if ls.Unroll > 0 {
+			return ls.Unroll, ls.Complete
+		}
+		if len(ls.Invs) > 0 {
+			return 0, false
+		}
+	}
+	if e.spec != nil && e.spec.Unroll > 0 {
+		return e.spec.Unroll, false
+	}
+	if e.root.spec != nil && e.root.spec.Unroll > 0 && e != e.root && e.loopSpec(b) == nil {
+		return e.root.spec.Unroll, false // inlined callee without its own loop contract, in a bounded lemma
+	}
+	return 0, false
+}
+
+// unroll executes the loop headed by b up to k times. Paths that would need a
+// further iteration are dropped (bounded: every later obligation of the
+// function is labelled so) or, with `complete`, must be shown infeasible.
+func (e *Exec) unroll(b *ssa.BasicBlock, ins []edge, k int, complete bool, outer func(from, to *ssa.BasicBlock, cond string, s *State)) {
+	c := e.c
+	body := naturalLoop(b)
+	var order []*ssa.BasicBlock
+	for _, blk := range rpo(e.fn) {
+		if body[blk] {
+			order = append(order, blk)
+		}
+	}
+	ord := e.loopOrd[b]
+	cur := ins
+	for it := 0; len(cur) > 0; it++ {
+		if it == k {
+			for _, ed := range cur {
+				pc := c.and(ed.st.pc, ed.cond)
+				if complete {
+					c.curHist = ed.st.hist
+					c.oblige(e.obl("unwind", fmt.Sprintf("loop%d", ord), nil), pc, "false")
+				}
+			}
+			if !complete {
+				e.root.boundedBy = append(e.root.boundedBy, fmt.Sprintf("%s loop%d unrolled %d times", e.name, ord, k))
+				c.bounded = fmt.Sprintf("bounded: %s", strings.Join(e.root.boundedBy, "; "))
+			}
+			break
+		}
+		local := map[*ssa.BasicBlock][]edge{b: cur}
+		var next []edge
+		flowIn := func(from, to *ssa.BasicBlock, cond string, s *State) {
+			switch {
+			case to == b && body[from]:
+				next = append(next, edge{from: from, cond: cond, st: s.clone()})
+			case body[to]:
+				if to.Dominates(from) && isLoopHeader(to) {
+					if kk, _ := e.unrollFor(to); kk == 0 {
+						e.backEdge(from, to, cond, s) // inner loop cut by its invariant
+						return
+					}
+				}
+				local[to] = append(local[to], edge{from: from, cond: cond, st: s.clone()})
+			default:
+				outer(from, to, cond, s)
+			}
+		}
+		for blk := range body {
+			delete(e.doneBlk, blk)
+		}
+		e.execRegion(order, local, flowIn, b)
+		cur = next
+	}
+	for blk := range body {
+		e.doneBlk[blk] = true
+	}
+}
+
+// execRegion runs the blocks of `order` (reverse post-order) from the given incoming edges.
+func (e *Exec) execRegion(order []*ssa.BasicBlock, incoming map[*ssa.BasicBlock][]edge, flow func(from, to *ssa.BasicBlock, cond string, s *State), unrolling *ssa.BasicBlock) {
+	c := e.c
+	for _, b := range order {
+		if e.doneBlk[b] {
+			continue
+		}
+		ins := incoming[b]
+		if len(ins) == 0 {
+			continue
+		}
+		if isLoopHeader(b) && b != unrolling {
+			if k, complete := e.unrollFor(b); k > 0 {
+				e.unroll(b, ins, k, complete, flow)
+				continue
+			}
+		}
+		// a block that only returns is executed once per incoming edge: the
+		// postconditions are then checked per path instead of on a merged state
+		if _, isRet := b.Instrs[len(b.Instrs)-1].(*ssa.Return); isRet && len(ins) > 1 && !isLoopHeader(b) && !hasPhi(b) && simpleBlock(b) {
+			for _, ed := range ins {
+				s := e.merge([]edge{ed})
+				if s.pc == "false" {
+					continue
+				}
+				e.enter(s)
+				for _, in := range b.Instrs {
+					if x, ok := in.(*ssa.Return); ok {
+						var vals Val
+						for _, r := range x.Results {
+							vals = append(vals, e.val(s, r)...)
+						}
+						e.rets = append(e.rets, retPoint{st: s.clone(), vals: vals, pos: x.Pos(), blk: b.Index})
+					} else {
+						e.step(s, in)
+					}
+				}
+			}
+			continue
+		}
+		s := e.merge(ins)
+		if s.pc == "false" {
+			continue
+		}
+		e.enter(s)
+		if isLoopHeader(b) && b != unrolling {
+			e.loopHead(b, s)
+		}
+		// phis
+		for _, in := range b.Instrs {
+			phi, ok := in.(*ssa.Phi)
+			if !ok {
+				break
+			}
+			n := cells(phi.Type())
+			r := make(Val, n)
+			for j := 0; j < n; j++ {
+				cur, first := "0", true
+				for i, p := range b.Preds {
+					for k := range ins {
+						if ins[k].from != p {
+							continue
+						}
+						v := e.val(ins[k].st, phi.Edges[i])[j]
+						if first {
+							cur, first = v, false
+						} else {
+							cur = c.ite("Int", c.and(ins[k].st.pc, ins[k].cond), v, cur)
+						}
+					}
+				}
+				r[j] = cur
+			}
+			s.regs[phi] = r
+		}
+		for _, in := range b.Instrs {
+			switch x := in.(type) {
+			case *ssa.Phi:
+				continue
+			case *ssa.If:
+				cond := e.intToBool(e.val(s, x.Cond)[0])
+				flow(b, b.Succs[0], cond, s)
+				flow(b, b.Succs[1], c.not(cond), s)
+			case *ssa.Jump:
+				flow(b, b.Succs[0], "true", s)
+			case *ssa.Return:
+				var vals Val
+				for _, r := range x.Results {
+					vals = append(vals, e.val(s, r)...)
+				}
+				e.rets = append(e.rets, retPoint{st: s.clone(), vals: vals, pos: x.Pos(), blk: b.Index})
+			default:
+				e.step(s, in)
+			}
+		}
+	}
+}
+
+// loopHead: a loop cut by its invariant: check it on entry, havoc, assume it.
+func (e *Exec) loopHead(b *ssa.BasicBlock, s *State) {
+	c := e.c
+	ord := e.loopOrd[b]
+	ls := e.loopSpec(b)
+	body := naturalLoop(b)
+	mods := e.modifiedIn(body)
+	if ls != nil {
+		env := e.envAt(s, true)
+		for _, inv := range ls.Invs {
+			e.obligeClause("inv-init", fmt.Sprintf("loop%d:%s", ord, inv.Label), inv, s.pc, env)
+		}
+	}
+	e.autoInvs(s, b, s.pc, "inv-init", ord)
+	// havoc what the loop may change
+	var hv []*ssa.Alloc
+	for a := range mods.vars {
+		if _, live := s.vars[a]; live {
+			hv = append(hv, a)
+		}
+	}
+	sort.Slice(hv, func(i, j int) bool { return hv[i].Pos() < hv[j].Pos() })
+	for _, a := range hv {
+		t := a.Type().(*types.Pointer).Elem()
+		nv := make(Val, cells(t))
+		for i := range nv {
+			nv[i] = c.fresh("Int", "hv_"+a.Comment)
+		}
+		s.vars[a] = nv
+	}
+	li := &loopInfo{preA: s.A}
+	e.loops[b] = li
+	keep := e.unwrittenPrivate(s, body)
+	preHeaps := map[string]string{}
+	for k, v := range s.heaps {
+		preHeaps[k] = v
+	}
+	e.havocHeaps(s, mods.kinds, mods.allocs)
+	// locals whose address never escapes and that the loop does not write keep their contents
+	for _, a := range keep {
+		obj := s.regs[a][0]
+		for k := range mods.kinds {
+			c.assume(s.pc, c.B("(= (select %s %s) (select %s %s))", s.heaps[k], obj, preHeaps[k], obj))
+		}
+	}
+	for _, a := range hv {
+		e.assumeTyped(s, s.vars[a], a.Type().(*types.Pointer).Elem())
+	}
+	e.assumeAutoInvs(s, b)
+	if ls != nil {
+		env := e.envAt(s, true)
+		env.hyp = true
+		for _, inv := range ls.Invs {
+			c.assume(s.pc, env.evalBool(inv.Expr))
+		}
+		if ls.Decreases != nil {
+			li.measure = env.evalInt(ls.Decreases)
+		}
+	}
 }
